@@ -15,6 +15,7 @@ func init() {
 		Stale(c, "R-STALE", []*packages.Package{c.Pkg("fp"), c.Pkg("statet")}, 25, 15)
 		Rerunnable(c, "R-RERUNNABLE", []*packages.Package{c.Pkg("fp"), c.Pkg("statet")}, 25)
 		Unit(c, "R-UNIT", 8)
+		ArgOrder(c, "R-ARGORDER", append(monadPackages(c), c.Pkg("lazy"), c.Pkg("future"), c.Pkg("iterator"), c.Pkg("seq"), c.Pkg("list")))
 		NextGuard(c, "R-NEXTGUARD", []*packages.Package{c.Pkg("iterator"), c.Pkg("fp")})
 		TemplateCopies(c, "R-COPIES", monadPackages(c), 100)
 		// the Applicative/Chain builders return what their FlatMap definition returns: the first failing operand in
